@@ -43,6 +43,7 @@ type Job struct {
 	Func  string
 	Args  []int64
 	Vacuity bool // the job must report the assertion labelled "vacuity" as violated
+	Raw     bool // run without redirects/summaries (lemmas about the real bodies)
 	NoMerge bool
 }
 
@@ -350,6 +351,10 @@ func (rc *RunCtx) runJob(j Job) (res *JobResult) {
 	if rc.Spec.Setup != nil {
 		rc.Spec.Setup(e, st, rc.Loaded)
 	}
+	if j.Raw {
+		e.Redirects = map[string]*ssa.Function{}
+		e.RedirectMatch = nil
+	}
 	pkg := rc.Loaded.Pkgs[pkgDirs[j.Pkg][1]]
 	if pkg == nil {
 		panic("package not loaded: " + j.Pkg)
@@ -411,7 +416,7 @@ func (rc *RunCtx) replayNative(j Job, model map[string]uint64, keepDir string) r
 	imports := ""
 	if j.Pkg == "rules" {
 		extra = "\tfor _, s := range verifRealised {\n\t\tt.Log(\"VERIF-RULE: \" + s)\n\t}\n"
-	} else if _, ok := rc.OverlayFiles[filepath.Join(repoDir, "rules", "zz_verif_export.go")]; ok {
+	} else if _, ok := rc.OverlayFiles[filepath.Join(repoDir, "rules", "zz_verif_export.go")]; ok && j.Pkg != "filterutil" {
 		imports = "\tvrules \"github.com/AdguardTeam/urlfilter/rules\"\n"
 		extra = "\tfor _, s := range vrules.VerifRealised() {\n\t\tt.Log(\"VERIF-RULE: \" + s)\n\t}\n"
 	}
